@@ -81,4 +81,8 @@ CLAIMS = {
   technique="poll-indexed cancellation wrappers (drop at the n-th Pending; drop after being woken, unpolled - what select! does) around public API futures racing with the awaited event, followed by the C01/C02 conservation oracle on the continuing traffic and next-valid-call probes",
   level_text="Held on every (socket, operation, cancellation point, delay, timeout) explored: after the dropped future the stream contains every queued message exactly once and whole, a cancelled send is all-or-nothing, and REQ/REP/DEALER/ROUTER accept the next valid call. Exploration; the evidence lists which cancellation points were actually reached.",
   level_note="The number of Pending polls an operation goes through depends on scheduling (1-2 for most operations here); DEALER egress loss/reorder is recorded under C01 and not re-judged."),
+ "C20": dict(
+  technique="differential runtime monitor: every scenario executed with the same seed on the tokio and on the io_uring backend inside one process per UringConfig, outcomes compared (C01 oracle verdicts, accepted counts, error kinds, handshake events, whether rzmq closed the connection); conservation gauges at quiescence (hooked send-pool gauge, /proc/self/fd)",
+  level_text="Streaming scenarios are observably equal on both backends for every UringConfig explored (zero-copy x multishot x cork x pool sizes, message sizes below/at/above buffer size and the zero-copy threshold); the recorded findings concern hostile/stalled peers, connection churn and fd release on the io_uring backend. Exploration.",
+  level_note="Kernel behaviour is this VM's; TSan/Miri cannot observe kernel-written rings, so memory-level evidence for this backend is limited to the ASan shard; DEALER-sender scenarios compare integrity verdicts only (shared C01 defect)."),
 }
